@@ -16,7 +16,7 @@ LEN = {"quick": (2, 3), "thorough": (3, 4)}
 def RULE(tier):
     a, b = LEN[tier]
     return (
-        "A real endpoint (acceptor and initiator) brought by real traffic to ACTIVE, to RESENDREQ_AWAITING through a "
+        "A real endpoint (acceptor and initiator; counters starting at 1 or just below 10 / 100 / 1000) brought by real traffic to ACTIVE, to RESENDREQ_AWAITING through a "
         "mid-session gap and through a Logon numbered too high, then fed a history of reference-encoded frames from a "
         "counterparty with correct CompIDs: type in {application (MsgType rotating over D, 8, j, AE, a custom type and the session-level Reject 3), Heartbeat, TestRequest, ResendRequest, "
         "SequenceReset-GapFill, SequenceReset-Reset} x MsgSeqNum in {E-2, E-1, E, E+1, E+5} x PossDupFlag in {absent, Y} x "
@@ -71,7 +71,9 @@ class Model:
 
 
 def run_history(acc, role, start, hist, origin):
-    b = Bench(role, start)
+    # the expected inbound number starts below a digit-count boundary for part of the histories (9 -> 10, 99 -> 100, 999 -> 1000)
+    n0 = (1, 1, 8, 97, 998, 1)[(len(hist) + sum(len(str(x)) for x in hist[:1])) % 6] if hist else 1
+    b = Bench(role, start, next_in=n0, next_out=(1, 9, 99)[len(hist) % 3])
     case = {"role": role, "start": start, "hist": [list(s) for s in hist]}
     flags = set()
 
